@@ -100,7 +100,8 @@ def clone(obj, method):
 
 # ------------------------------------------------------------------------------------------------ generators
 def rand_value(rng):
-    return rng.choice(["", "x", 1, 2.5, float("nan"), "15_9", None, -999.25, "A:1"])
+    # (numpy's `nan` is ONE module-level float object: deepcopy hands the same object back, pickle makes a new one)
+    return rng.choice(["", "x", 1, 2.5, float("nan"), "15_9", None, -999.25, "A:1", __import__("numpy").nan])
 
 
 def rand_array(rng, n):
